@@ -51,43 +51,58 @@ def asm_block_rules(run):
     g = run.anchor(R, "asm::resolver::eval_asm::resolve_once")
     if g is None:
         return
-    # position bookkeeping
-    cps = g.locals_named("cur_position")
-    ok = len(cps) == 1
-    why = "no single position counter"
+    # position bookkeeping: the block-local position is the value put into the BankData handed to each instruction
+    bd = [st for bi, si, st in g.stmts() if st["k"] == "assign" and st["rv"]["k"] == "agg" and st["rv"].get("agg") == "adt" and st["rv"]["adt"].endswith("BankData")]
+    cp = None
+    if len(bd) == 1 and op_local(bd[0]["rv"]["ops"][0]) is not None:
+        cp = g.copy_root(op_local(bd[0]["rv"]["ops"][0]))
+    ok = cp is not None and not (1 <= cp <= g.arg_count)
+    why = "the position handed to the instructions is not a block-local counter"
     if ok:
-        cp = cps[0]
         inits, incs, other = [], [], []
         for d in g.full_defs(cp):
             if d[0] != "stmt" or d[3]["k"] != "assign":
-                other.append(d)
+                other.append((d, "call"))
                 continue
             rv = d[3]["rv"]
             e = deep(g, rv["op"], 6) if rv["k"] == "use" else "?"
             if e == "P7":
                 inits.append(d)
-            elif re.match(r"^\(var:cur_position Add Index::index\(instruction::resolve_encoding\(.*\)@Some\.0, 0_usize\)\.1\.size\)$", e) or re.match(r"^\(var:cur_position Add .*resolve_encoding.*\.size.*\)$", e):
+                continue
+            o = g.origin_op(rv["op"]) if rv["k"] == "use" else None
+            if o and o[0] == "place" and o[1][0] == "binop":
+                o = o[1]
+            if o and o[0] == "binop" and o[1]["op"].startswith("Add") and op_local(o[1]["l"]) is not None and g.copy_root(op_local(o[1]["l"])) == cp \
+                    and re.search(r"resolve_encoding\(.*\.size", deep(g, o[1]["r"], 6)):
                 incs.append(d)
             else:
                 other.append((d, e))
         ok = len(inits) == 1 and len(incs) == 1 and not other
-        why = "%d initialisation(s) from the start position, %d advance(s) by the size of the encoding just resolved, other assignments: %s" % (len(inits), len(incs), [x[1][:80] for x in other if isinstance(x, tuple) and len(x) == 2 and isinstance(x[1], str)])
+        why = "%d initialisation(s) from the start position, %d advance(s) by the size of the encoding just resolved, other assignments: %s" % (len(inits), len(incs), [x[1][:80] for x in other])
     run.check(ok, R, R + "|position", g.loc(), "inside the block the position starts at the block's start and advances by the size of each resolved instruction",
               "resolve_once: %s" % why)
     # the context handed to each instruction carries that position
-    bd = [st for bi, si, st in g.stmts() if st["k"] == "assign" and st["rv"]["k"] == "agg" and st["rv"].get("agg") == "adt" and st["rv"]["adt"].endswith("BankData")]
-    okb = len(bd) == 1 and deep(g, bd[0]["rv"]["ops"][0]) == "var:cur_position"
+    ictx = None
     stores = {}
     for bi, si, st in g.stmts():
-        if st["k"] == "assign" and st["place"]["p"] and g.local_name(st["place"]["l"]) == "inner_ctx":
+        if st["k"] == "assign" and st["place"]["p"]:
+            fld = [pr["name"] for pr in st["place"]["p"] if isinstance(pr, dict) and "f" in pr]
+            if fld and fld[-1] == "bank_data" and "BankData{" in (deep(g, {"copy": st["rv"]["place"]}, 5) if st["rv"]["k"] == "ref" else deep(g, st["rv"]["op"], 5) if st["rv"]["k"] == "use" else ""):
+                ictx = st["place"]["l"]
+    for bi, si, st in g.stmts():
+        if st["k"] == "assign" and st["place"]["p"] and st["place"]["l"] == ictx:
             fld = [pr["name"] for pr in st["place"]["p"] if isinstance(pr, dict) and "f" in pr]
             if fld:
                 stores[fld[-1]] = (deep(g, st["rv"]["op"], 5) if st["rv"]["k"] == "use" else (deep(g, {"copy": st["rv"]["place"]}, 5) if st["rv"]["k"] == "ref" else "?"), st)
-    okb = okb and "bank_data" in stores and "BankData{" in stores["bank_data"][0]
+    okb = ictx is not None and cp is not None
     re_ = _calls(g, "instruction::resolve_encoding")
     ea = _calls(g, "ResolverContext::eval_address")
-    okb = okb and len(re_) == 1 and g.local_name(g.copy_root(_base_local(g, re_[0][1]["args"][7]))) == "inner_ctx" if re_ else False
-    okb = okb and len(ea) == 1 and g.local_name(g.copy_root(_base_local(g, ea[0][1]["args"][0]))) == "inner_ctx"
+    okb = okb and len(re_) == 1 and g.copy_root(_base_local(g, re_[0][1]["args"][7])) == ictx
+    okb = okb and len(ea) == 1 and g.copy_root(_base_local(g, ea[0][1]["args"][0])) == ictx
+    # the inner context is a copy of the enclosing one
+    if okb:
+        ds = g.full_defs(ictx)
+        okb = len(ds) == 1 and ds[0][0] == "call" and (ds[0][2].get("callee") or "").endswith("Clone::clone") and deep(g, ds[0][2]["args"][0]) == "P5"
     run.check(bool(okb), R, R + "|inner-context", g.loc(), "each instruction and label of the block is evaluated in a copy of the context whose position is the block-local position",
               "resolve_once no longer evaluates the block's instructions/labels with a context positioned at the block-local position: `$` and label values inside the block would be those of the enclosing instruction")
     # strictness of the inner passes must follow the outer pass
@@ -115,7 +130,7 @@ def asm_block_rules(run):
     if okc:
         cb, ct = cc[0]
         a = [deep(g, x, 5) for x in ct["args"]]
-        okc = a[0] == "var:result" and a[1] == "tuple(var:result.size, 0_usize)" and "resolve_encoding" in a[2] and a[3].startswith("tuple(") and a[3].endswith(", 0_usize)")
+        okc = a[0].startswith("var:") and a[1] == "tuple(%s.size, 0_usize)" % a[0] and "resolve_encoding" in a[2] and a[3].startswith("tuple(") and a[3].endswith(", 0_usize)")
     run.check(okc, R, R + "|concat-order", g.loc(), "the block's value is the concatenation of its instructions' encodings in order, each at full width",
               "resolve_once no longer appends each encoding, whole, after the bits collected so far")
     # an unresolved instruction makes the pass unstable, and fails when guessing is not allowed
@@ -123,7 +138,7 @@ def asm_block_rules(run):
     oku = len(cg) == 1
     if oku:
         cb, ct = cg[0]
-        oku = g.local_name(g.copy_root(_base_local(g, ct["args"][0]))) == "inner_ctx"
+        oku = ictx is not None and g.copy_root(_base_local(g, ct["args"][0])) == ictx
     run.check(oku, R, R + "|unresolved-inner", g.loc(), "an instruction of the block that cannot be resolved fails the block once guessing is not allowed", "resolve_once no longer fails on an unresolvable inner instruction in a strict pass")
 
 
@@ -262,3 +277,76 @@ def fn_rules(run):
                 why = "parameters are not bound, by position, to the argument values in the fresh context (%s)" % a
     run.check(ok, RR, RR + "|call", f.loc(), "a user function call checks the depth, checks the argument count, binds parameter i to argument i in a fresh deeper context and evaluates the body there",
               "eval_fn: %s" % why)
+
+
+def args_rules(run, R="ARGS"):
+    """function arguments are only indexed after their number has been checked: every `query.args[i]` in a function taking an
+    EvalFunctionQuery is behind the success edge of ensure_arg_number(n > i) / ensure_min_max_arg_number(min > i, ..), or
+    behind `args.len() >= k` with k > i; when a helper indexes without its own check, every caller must have checked"""
+    from rules_mpt import success_edge_of_call
+    prog = run.prog
+
+    def checked_upto(f, block, q):
+        """largest n such that indices < n are known to exist at `block` (None: nothing known)"""
+        best = None
+        for bi, t in f.calls():
+            c = short_callee(t)
+            if c.endswith("EvalFunctionQuery::ensure_arg_number") or c.endswith("EvalFunctionQuery::ensure_min_max_arg_number"):
+                if deep(f, t["args"][0]) != q:
+                    continue
+                se = success_edge_of_call(f, bi, t)
+                if se is None or not f.edge_dominates(se[0], se[1], block):
+                    continue
+                n = const_int(t["args"][1])
+                n = 1 << 30 if n is None else n        # a non-constant bound: established for the caller's own range
+                best = n if best is None else max(best, n)
+        for bi, si, st in f.stmts():
+            if st["k"] == "assign" and st["rv"]["k"] == "binop" and st["rv"]["op"] in ("Ge", "Gt", "Eq"):
+                if deep(f, st["rv"]["l"], 4) == "Vec::len(%s.args)" % q and const_int(st["rv"]["r"]) is not None:
+                    tt = f.blocks[bi]["term"]
+                    if tt["k"] == "switch" and op_local(tt["discr"]) == st["place"]["l"] and f.edge_dominates(bi, tt["otherwise"], block):
+                        n = const_int(st["rv"]["r"]) + (1 if st["rv"]["op"] == "Gt" else 0)
+                        best = n if best is None else max(best, n)
+        return best
+
+    n_sites = 0
+    for f in prog.real_fns():
+        qs = [i for i in range(1, f.arg_count + 1) if "EvalFunctionQuery" in (f.local_ty(i) or "")]
+        if not qs or f.kind == "Closure":
+            continue
+        for bi, t in f.calls():
+            if short_callee(t) != "Index::index" or len(t["args"]) != 2:
+                continue
+            base = deep(f, t["args"][0], 4)
+            m = re.fullmatch(r"(P\d+)\.args", base)
+            if not m or int(m.group(1)[1:]) not in qs:
+                continue
+            n_sites += 1
+            q = m.group(1)
+            idx = const_int(t["args"][1])
+            have = checked_upto(f, bi, q)
+            root = f.raw.get("root") or f.id
+            key = "%s|%s|args[%s]" % (R, root, idx if idx is not None else "i")
+            audited = {e["key"]: e["reason"] for e in run.table("err").get("args_audited", [])}
+            if key in audited and not (have is not None and (idx is None or idx < have)):
+                run.exception(R, key, f.loc(t["span"]), "argument %s is read without a dominating count check -- cannot be reached without it: %s" % (idx, audited[key]))
+                continue
+            ok = have is not None and (idx is None or idx < have)
+            if not ok and have is None:
+                # a helper: every caller must have checked before the call
+                callers = []
+                for g in prog.real_fns():
+                    for b2, t2 in g.calls():
+                        if (t2.get("resolved") or "") == f.id:
+                            callers.append((g, b2, t2))
+                if callers:
+                    okc = True
+                    for g, b2, t2 in callers:
+                        qa = deep(g, t2["args"][int(q[1:]) - 1], 3) if int(q[1:]) - 1 < len(t2["args"]) else "?"
+                        hv = checked_upto(g, b2, qa) if re.fullmatch(r"P\d+", qa) else None
+                        if hv is None or (idx is not None and idx >= hv):
+                            okc = False
+                    ok = okc
+            run.check(ok, R, key, f.loc(t["span"]), "%s reads argument %s after the argument count was checked" % (root, idx if idx is not None else "i"),
+                      "%s indexes `args[%s]` without a dominating check of the number of arguments (ensure_arg_number / args.len() test): a call with too few arguments panics instead of reporting `function expected N arguments`" % (root, idx if idx is not None else "i"))
+    run.floor(R, "argument index sites", n_sites, 20)
